@@ -1115,6 +1115,18 @@ def check_c17(ix, cfg):
                 continue  # the invocation was killed inside the log call: nothing to judge
             emitted = bool(nxt["k"] == "log" and nxt["msg"] == "L:" + pos)
             silent_expected = (not first) and any(s > e["s"] and oid in done for s, oid in begins)
+            if not silent_expected and not first:
+                # a log call inside the body of a context that had itself completed (re-traversed because its
+                # result was replaced by a summary) is code an earlier invocation already ran
+                p_ = pos.split("#")[0]
+                while True:
+                    cp = ctx_pos(p_)
+                    if cp[0] != "child":
+                        break
+                    if info["hist"].get(ix.pos_id(cp[1])) in TERMINAL:
+                        silent_expected = True
+                        break
+                    p_ = cp[1]
             if silent_expected and emitted:
                 out.append(V("C17", "logged-during-replay", f"invocation {inv}: log call at {pos} precedes an operation already complete in "
                              f"the history but was emitted", pos=pos, seq=e["s"]))
@@ -1483,4 +1495,72 @@ def check_c09(ix, cfg):
     for info in w.invocations:
         if info["outcome"] == "hang" and not any(e["i"] == info["n"] and not e.get("ok") for e in ix.kinds["api-end"]):
             out.append(V("C09", "call-never-returned", f"invocation {info['n']}: {info.get('hang')} inside map/parallel", table=info.get("hang_table")))
+    return out
+
+
+# ------------------------------------------------------------- generic: unexplained exceptions
+def scripted_errors(program):
+    """(class, message) pairs that user code of this program raises on purpose."""
+    out = set()
+
+    def walk_fn(fn):
+        for a in (fn or {}).get("attempts", []):
+            if a.get("do") == "raise":
+                out.add((a["cls"], a.get("msg", "boom")))
+
+    def walk(body):
+        for st in body:
+            one(st)
+
+    def one(st):
+        op = st["op"]
+        if op == "try":
+            one(st["stmt"])
+            walk(st.get("handler", []))
+        elif op == "raise":
+            out.add((st["cls"], st.get("msg", None)))
+        elif op in ("step", "wfc"):
+            walk_fn(st.get("fn"))
+        elif op == "wfcond":
+            walk_fn(st.get("check"))
+        elif op == "callback":
+            walk(st.get("between", []))
+        elif op == "child":
+            walk(st["body"])
+        elif op == "parallel":
+            for br in st["branches"]:
+                walk(br["body"])
+        elif op == "map":
+            for b in (st["bodies"] if "bodies" in st else [st["body"]]):
+                walk(b)
+
+    walk(program["body"])
+    return out
+
+
+def check_unexplained_exceptions(ix, cfg, prop):
+    """A durable call may raise the recorded error (CallableRuntimeError / CallbackError), an invocation-level
+    error, or what user code raised on purpose. Anything else (InvalidStateError, 'dictionary changed size during
+    iteration', KeyError ...) is the SDK failing, and it changes what the workflow observes."""
+    out = []
+    scripted = scripted_errors(cfg["program"])
+    classes = {c for c, _ in scripted}
+    has_odd_values = '"set"' in json.dumps(cfg["program"]) or '"obj"' in json.dumps(cfg["program"])
+    for pos, ds in ix.deliveries.items():
+        for d in ds:
+            if d["how"] != "raise" or d.get("inv_level"):
+                continue
+            cls, msg = d["cls"], d.get("msg")
+            if cls in ("CallableRuntimeError", "CallbackError"):
+                continue
+            if (cls, msg) in scripted or ((cls, None) in scripted):
+                continue
+            if cls in ("ExecutionError", "SerDesError", "ValidationError") and (has_odd_values or cls in classes):
+                continue
+            if cls in classes and any(m is not None and msg is not None and m == msg for c, m in scripted if c == cls):
+                continue
+            if any(e["i"] == d["inv"] and not e.get("ok") for e in ix.kinds["api-end"]):
+                continue  # after an API failure the call may surface the checkpoint error (C06/C18 judge that)
+            out.append(V(prop, "unexplained-exception", f"{pos} ({d['op']}) raised {cls}: {str(msg)[:120]} in invocation {d['inv']}: neither "
+                         f"the recorded outcome nor anything user code raises", pos=pos, seq=d["s1"], exc=cls))
     return out
